@@ -79,6 +79,26 @@ for _tab in ([*UNIT_IN, *UNIT_OUT], [*PHASE, *PHASE_SENT]):
         raise MachineryFault("literal keys are not ordered like the floats handed to the code")
 UNIT_ZERO = BY_KEY[Fraction(0)]
 UNIT_ONE = BY_KEY[Fraction(1)]
+PHASE_ZERO = BY_KEY[Fraction(100)]
+# values a Parameter of the kind may hold / bounds it may be given, in the order of the exact keys
+UNIT_SORTED = sorted([*UNIT_IN, *UNIT_OUT], key=lambda l: l.key)
+PHASE_SORTED = sorted(PHASE, key=lambda l: l.key)
+PHASE_BOUNDS_SORTED = sorted([*PHASE, *PHASE_SENT], key=lambda l: l.key)
+
+
+def spell(rng, v: dict | None) -> dict | None:
+    """the same exact number in another Python spelling: 0 / 0.0 / -0.0 (all falsy), int / float for the
+    other integers.  The model only reads the exact key, so every spelling must behave alike."""
+    if v is None or "n" not in v:
+        return v
+    py = v["py"]
+    if isinstance(py, bool) or not isinstance(py, (int, float)) or py != py or py in (math.inf, -math.inf):
+        return v
+    if py == 0:
+        return {"n": v["n"], "py": rng.choice([0, 0.0, -0.0])}
+    if float(py).is_integer():
+        return {"n": v["n"], "py": rng.choice([int(py), float(py)])}
+    return v
 
 
 def v_other(t: int) -> dict:
@@ -474,14 +494,15 @@ class Gen:
         if kind == "phase":
             if r < p_bad / 2:
                 return v_other(rng.randrange(len(OTHER)))
+            if r < p_bad / 2 + 0.08:
+                return spell(rng, PHASE_ZERO.v())
             return rng.choice(PHASE).v()
         if r < p_bad / 2:
             return v_other(rng.randrange(len(OTHER)))
         if r < p_bad or (kind == "free" and r < 0.4):
-            return rng.choice(UNIT_OUT).v()
+            return spell(rng, rng.choice(UNIT_OUT).v())
         if r < p_bad + 0.15:
-            lit = rng.choice([UNIT_ZERO, UNIT_ONE])
-            return UNIT_INT[int(lit.key)].v() if rng.random() < 0.3 else lit.v()
+            return spell(rng, rng.choice([UNIT_ZERO, UNIT_ONE]).v())
         return rng.choice(UNIT_IN).v()
 
     def bound_ok(self, kind: str, side: str, pid: int | None, cur: Fraction | None) -> dict | None:
@@ -547,14 +568,17 @@ class Gen:
         if r < 0.29:
             return v_other(rng.choice([0, 2]))
         if kind == "phase":
+            if r < 0.55:
+                return spell(rng, rng.choice(PHASE_SENT[:2] if side == "min" else PHASE_SENT[2:]).v())
             if r < 0.65:
-                return rng.choice(PHASE_SENT[:2] if side == "min" else PHASE_SENT[2:]).v()
+                return spell(rng, PHASE_ZERO.v())  # a bound that is exactly 0 on either side
             return rng.choice(PHASE).v()
         if r < 0.5:
-            return (UNIT_ZERO if side == "min" else UNIT_ONE).v() if rng.random() < 0.6 else \
-                UNIT_INT[0 if side == "min" else 1].v()
+            # the natural end of [0, 1] for the side, or (1 in 4) the other end: max = 0 / min = 1
+            nat = (side == "min") == (rng.random() < 0.75)
+            return spell(rng, (UNIT_ZERO if nat else UNIT_ONE).v())
         if r < 0.62:
-            return rng.choice(UNIT_OUT).v()
+            return spell(rng, rng.choice(UNIT_OUT).v())
         return rng.choice(UNIT_IN).v()
 
     # ---- ops
@@ -774,6 +798,364 @@ class Gen:
             self.note("op:literal-component")
 
 
+    # ------------------------------------------------------------------ directed dimensions
+    # (1) boundary numerics: every place where the code tests a number for truthiness or compares it
+    # (2) every Parameter-carrying field, at every depth, through every rewrite, rewrite BEFORE update
+
+    def emit_pnew(self, kind: str, v: dict, b) -> int | None:
+        pid = self.npid
+        self.npid += 1
+        self.prog.append(["pnew", pid, v, b])
+        self.note("pnew" + ("+bounds" if b is not None else ""))
+        if not self.believe_new(pid, v, b):
+            self.note("pnew-rejected(expected)")
+            return None
+        self.kind[pid] = kind
+        return pid
+
+    def boundary_param(self, kind: str | None = None) -> int | None:
+        """a Parameter whose bounds / value sit exactly on a pivot (mostly 0 in one of its spellings)"""
+        rng = self.rng
+        kind = kind or rng.choice(["unit", "unit", "phase", "phase", "free", "free"])
+        vals = PHASE_SORTED if kind == "phase" else UNIT_SORTED
+        bnds = PHASE_BOUNDS_SORTED if kind == "phase" else UNIT_SORTED
+        zero = PHASE_ZERO if kind == "phase" else UNIT_ZERO
+        pivot = zero if rng.random() < 0.65 else rng.choice(vals[1:-1])
+        below = [l for l in vals if l.key < pivot.key]
+        above = [l for l in vals if l.key > pivot.key]
+        shape = rng.choice(["max", "max", "min", "min", "equal", "late", "value"])
+        sv = lambda l: None if l is None else spell(rng, l.v())  # noqa: E731
+        if shape == "max":      # [.., pivot]: negative range when pivot = 0
+            val = pivot if rng.random() < 0.3 else rng.choice(below)
+            lows = [l for l in bnds if l.key <= val.key]
+            b = [sv(rng.choice([None, val, rng.choice(lows)])), sv(pivot)]
+        elif shape == "min":    # [pivot, ..]
+            val = pivot if rng.random() < 0.3 else rng.choice(above)
+            highs = [l for l in bnds if l.key >= val.key]
+            b = [sv(pivot), sv(rng.choice([None, val, rng.choice(highs)]))]
+        elif shape == "equal":  # min == max == value
+            val, b = pivot, [sv(pivot), sv(pivot)]
+        elif shape == "late":   # bounds arrive through the setters only
+            val = rng.choice([pivot, rng.choice(vals)])
+            b = rng.choice([None, [None, None]])
+        else:                   # the VALUE is the pivot; bounds strictly around it or absent
+            val = pivot
+            b = rng.choice([None, [sv(rng.choice([None, *[l for l in bnds if l.key < pivot.key]])),
+                                   sv(rng.choice([None, *[l for l in bnds if l.key > pivot.key]]))]])
+        self.note("boundary:new:" + shape + (":zero" if pivot is zero else ""))
+        return self.emit_pnew(kind, sv(val), b)
+
+    def emit_set(self, pid: int, v: dict) -> None:
+        """value update, directly or through a ParameterDict key that holds the parameter"""
+        keys = [dk for dk, q in self.dmap.items() if q == pid]
+        if keys and self.rng.random() < 0.45:
+            d, k = self.rng.choice(keys)
+            self.prog.append(["dset", d, k, v])
+            self.note("op:dset")
+        else:
+            self.prog.append(["pset", pid, v])
+            self.note("op:pset")
+        self.believe_set(pid, v)
+
+    def emit_bound(self, pid: int, side: str, b: dict | None) -> None:
+        self.prog.append(["p" + side, pid, b])
+        self.believe_bound(pid, side, b)
+        self.note("op:p" + side)
+
+    def boundary_move(self, pid: int) -> None:
+        """one call placed relative to the parameter's current value and bounds: just outside, exactly
+        on, removal and re-installation of a bound, a bound exactly 0, a bound equal to the value"""
+        rng = self.rng
+        kind = self.kind[pid]
+        vals = PHASE_SORTED if kind == "phase" else UNIT_SORTED
+        bnds = PHASE_BOUNDS_SORTED if kind == "phase" else UNIT_SORTED
+        zero = PHASE_ZERO if kind == "phase" else UNIT_ZERO
+        cur, lo, hi = self.cur.get(pid), self.lo.get(pid), self.hi.get(pid)
+        sv = lambda l: None if l is None else spell(rng, l.v())  # noqa: E731
+
+        def near(cands: list, ref, up: bool):
+            """mostly the literal next to `ref`, else any"""
+            if not cands:
+                return None
+            if rng.random() < 0.5:
+                return cands[0] if up else cands[-1]
+            return rng.choice(cands)
+
+        move = rng.choice(["above", "above", "below", "below", "on", "on", "inside", "zero", "other", "drop",
+                           "cross", "cross", "pin", "bzero", "bzero", "bany"])
+        self.note("boundary:move:" + move)
+        if move == "above":      # above the maximum (rejected when there is one)
+            ref = hi if hi is not None else cur
+            c = [l for l in vals if ref is None or l.key > ref]
+            self.emit_set(pid, sv(near(c, ref, True) or rng.choice(vals)))
+        elif move == "below":
+            ref = lo if lo is not None else cur
+            c = [l for l in vals if ref is None or l.key < ref]
+            self.emit_set(pid, sv(near(c, ref, False) or rng.choice(vals)))
+        elif move == "on":       # exactly on a bound
+            c = [BY_KEY[k] for k in (lo, hi) if k is not None and BY_KEY[k] in vals]
+            self.emit_set(pid, sv(rng.choice(c) if c else zero))
+        elif move == "inside":
+            c = [l for l in vals if (lo is None or lo <= l.key) and (hi is None or l.key <= hi)]
+            self.emit_set(pid, sv(rng.choice(c) if c else rng.choice(vals)))
+        elif move == "zero":
+            self.emit_set(pid, sv(zero))
+        elif move == "other":    # non-numeric: allowed only while the parameter has no bound at all
+            self.emit_set(pid, v_other(rng.randrange(len(OTHER))))
+        elif move == "drop":
+            self.emit_bound(pid, rng.choice(["min", "max"]), None)
+        elif move == "cross":    # a bound the current value violates: rejected, nothing may change
+            side = rng.choice(["min", "max"])
+            c = [l for l in bnds if cur is not None and (l.key > cur if side == "min" else l.key < cur)]
+            self.emit_bound(pid, side, sv(near(c, cur, side == "min") or rng.choice(bnds)))
+        elif move == "pin":      # bound == current value
+            self.emit_bound(pid, rng.choice(["min", "max"]), sv(BY_KEY[cur]) if cur is not None else sv(zero))
+        elif move == "bzero":    # a bound that is exactly 0 (falsy), on the side the value allows mostly
+            if cur is not None and rng.random() < 0.8:
+                side = "max" if cur <= zero.key else "min"
+                if cur == zero.key:
+                    side = rng.choice(["min", "max"])
+            else:
+                side = rng.choice(["min", "max"])
+            self.emit_bound(pid, side, sv(zero))
+        else:
+            self.emit_bound(pid, rng.choice(["min", "max"]), sv(rng.choice(bnds)))
+
+    def attach(self, cid: str, pid: int, role: str | None = None, far: bool | None = None) -> None:
+        """one component on `cid` whose `role` field is the Parameter `pid`"""
+        rng = self.rng
+        n = self.vis[cid]
+        kind = self.kind[pid]
+        if role is None:
+            role = "phi" if kind == "phase" else rng.choice(["refl", "refl", "bsloss", "psloss", "loss"])
+        if n < 2 and role in ("refl", "bsloss"):
+            role = "loss"
+        self.attached.add(pid)
+        if role in ("refl", "bsloss"):
+            pairs = [(a, b) for a in range(n) for b in range(n) if a != b]
+            farp = [p for p in pairs if abs(p[0] - p[1]) >= 2]
+            if far is None:
+                far = rng.random() < 0.6
+            m1, m2 = rng.choice(farp if far and farp else [p for p in pairs if abs(p[0] - p[1]) == 1])
+            self.note("bs:non-adjacent" if abs(m1 - m2) >= 2 else "bs:adjacent")
+            if role == "refl":
+                ra, la = {"p": pid}, self.loss_arg(0.35)
+                self.note("role:reflectivity")
+            else:
+                q = self.pick_param(("unit",)) if rng.random() < 0.5 else None
+                c, s = rng.choice(PYTH)
+                ra, la = ({"p": q} if q is not None else refl_lit(c, s)), {"p": pid}
+                if q is not None:
+                    self.attached.add(q)
+                    self.note("role:reflectivity")
+                self.note("role:loss")
+            self.prog.append(["bsp", cid, m1, m2, ra, rng.choice(["Rx", "H"]), la])
+            self.note("op:bsp")
+        elif role == "phi":
+            self.prog.append(["psp", cid, self.mode(cid), {"p": pid}, self.loss_arg(0.35)])
+            self.note("role:phi")
+            self.note("op:psp")
+        elif role == "psloss":
+            q = self.pick_param(("phase",)) if rng.random() < 0.5 else None
+            pa = {"p": q} if q is not None else phi_lit(rng.choice(CIRCLE))
+            if q is not None:
+                self.attached.add(q)
+                self.note("role:phi")
+            self.prog.append(["psp", cid, self.mode(cid), pa, {"p": pid}])
+            self.note("role:loss")
+            self.note("op:psp")
+        else:
+            self.prog.append(["lossp", cid, self.mode(cid), {"p": pid}])
+            self.note("role:loss")
+            self.note("op:lossp")
+
+    def fresh_value(self, pid: int, p_invalid: float = 0.08) -> dict:
+        """a value different from the one held, accepted by the bounds if possible, valid for the
+        component mostly; exactly 0 / 1 in any spelling now and then"""
+        rng = self.rng
+        kind = self.kind[pid]
+        cur, lo, hi = self.cur.get(pid), self.lo.get(pid), self.hi.get(pid)
+        r = rng.random()
+        if kind == "phase":
+            pool = [PHASE_ZERO] if r < 0.12 else PHASE
+        elif r < p_invalid:
+            pool = UNIT_OUT
+        elif r < p_invalid + 0.2:
+            pool = [UNIT_ZERO, UNIT_ONE]
+        else:
+            pool = UNIT_IN
+        c = [l for l in pool if l.key != cur and (lo is None or lo <= l.key) and (hi is None or l.key <= hi)]
+        if not c:
+            full = PHASE if kind == "phase" else UNIT_IN
+            c = [l for l in full if l.key != cur and (lo is None or lo <= l.key) and (hi is None or l.key <= hi)]
+        if not c:
+            c = [l for l in (PHASE if kind == "phase" else UNIT_IN) if l.key != cur]
+        return spell(rng, rng.choice(c).v())
+
+    def fresh_value_new(self, kind: str) -> dict:
+        """initial value for an attachable Parameter: valid, and exactly 0 / 1 one time in four"""
+        rng = self.rng
+        if kind == "phase":
+            return spell(rng, (PHASE_ZERO if rng.random() < 0.25 else rng.choice(PHASE)).v())
+        if rng.random() < 0.25:
+            return spell(rng, rng.choice([UNIT_ZERO, UNIT_ZERO, UNIT_ONE]).v())
+        return rng.choice(UNIT_IN).v()
+
+    def add_into(self, cid: str, sub: str, group: bool | None = None) -> None:
+        rng = self.rng
+        p, q = self.vis[cid], self.vis[sub] - self.her[sub]
+        m = rng.randint(0, p - q) if 0 < q <= p else 0
+        self.prog.append(["add", cid, sub, m, rng.random() < 0.5 if group is None else group])
+        self.note("op:add")
+
+    def derive(self, op: str, src: str, other: str | None = None) -> str:
+        """copy / freeze / plus: a new circuit made from `src`"""
+        new = f"c{len(self.vis)}"
+        if op == "plus":
+            self.prog.append(["plus", new, src, other or src])
+        else:
+            self.prog.append([op, new, src])
+        self.vis[new], self.her[new] = self.vis[src], (0 if op == "plus" else self.her[src])
+        self.note("op:" + op)
+        return new
+
+    def rewrite(self, cid: str, which: str | None = None) -> str:
+        """one spec-rebuilding operation; returns the circuit that carries on"""
+        rng = self.rng
+        which = which or rng.choice(["nonadj", "nonadj", "nonadj", "compress", "compress", "unpack", "copy",
+                                     "plus", "add"])
+        self.note("rewrite:" + which)
+        if which in ("nonadj", "compress", "unpack"):
+            self.prog.append([which, cid])
+            return cid
+        if which == "copy":
+            return self.derive("copy", cid)
+        if which == "plus":
+            if self.her[cid]:
+                self.prog.append(["nonadj", cid])
+                return cid
+            same = [c for c in self.vis if self.vis[c] == self.vis[cid] and not self.her[c]]
+            return self.derive("plus", cid, rng.choice(same))
+        host = self.new_circ(self.vis[cid] - self.her[cid] + rng.randint(0, 1))
+        self.add_into(host, cid)
+        return host
+
+
+def _dict_all(g: Gen, d: str = "d0") -> None:
+    items = [[f"k{i}", pid] for i, pid in enumerate(g.kind)]
+    g.prog.append(["dnew", d, items])
+    g.dkeys[d] = [k for k, _ in items]
+    for k, q in items:
+        g.dmap[(d, k)] = q
+    g.note("op:dnew")
+
+
+def gen_boundary_history(rng, big: bool = False) -> tuple[list, dict]:
+    """1-3 Parameters pinned to a pivot (mostly exactly 0), held by a ParameterDict and by a circuit,
+    then a walk of calls placed just outside / exactly on / across their bounds"""
+    g = Gen(rng, big, True)
+    for _ in range(rng.randint(1, 3)):
+        g.boundary_param()
+    while not g.kind:
+        g.boundary_param()
+    if rng.random() < 0.75:
+        _dict_all(g)
+    cid = g.new_circ(rng.randint(2, 3))
+    for pid, kind in list(g.kind.items()):
+        if kind != "free" and rng.random() < 0.8:
+            g.attach(cid, pid)
+    for _ in range(rng.randint(6, 18 if big else 13)):
+        r = rng.random()
+        if r < 0.8:
+            g.boundary_move(rng.choice(list(g.kind)))
+        elif r < 0.9:
+            g.derive(rng.choice(["freeze", "freeze", "copy"]), rng.choice(list(g.vis)))
+        else:
+            pid = rng.choice(list(g.kind))
+            if g.kind[pid] != "free":
+                g.attach(rng.choice(list(g.vis)), pid)
+    return g.prog, g.counts
+
+
+def gen_rewrite_history(rng, big: bool = False) -> tuple[list, dict]:
+    """Parameters in every field role (beam splitters on non-adjacent modes mostly), nested 0-2 levels
+    deep through add (grouped or not), one or more rewrites at some level, and only THEN rounds of
+    updates of every attached Parameter, with further rewrites / copies / frozen copies in between"""
+    g = Gen(rng, big, True)
+    for kind in ("unit", "unit", "phase"):
+        v = g.fresh_value_new(kind)
+        r = rng.random()
+        if r < 0.55:
+            b = None
+        elif kind == "phase":
+            b = [spell(rng, PHASE_SENT[1].v()), spell(rng, PHASE_SENT[2].v())]
+        else:
+            b = [spell(rng, UNIT_ZERO.v()), spell(rng, UNIT_ONE.v())]
+        g.emit_pnew(kind, v, b)
+    if rng.random() < 0.5:
+        g.emit_pnew("unit", g.fresh_value_new("unit"), None)
+    if rng.random() < 0.6:
+        _dict_all(g)
+    units = [p for p, k in g.kind.items() if k == "unit"]
+    phases = [p for p, k in g.kind.items() if k == "phase"]
+
+    def populate(cid: str, k: int) -> None:
+        for _ in range(k):
+            r = rng.random()
+            if r < 0.55 and g.vis[cid] >= 2:
+                g.attach(cid, rng.choice(units), rng.choice(["refl", "refl", "refl", "bsloss"]))
+            elif r < 0.7:
+                g.attach(cid, rng.choice(phases), "phi")
+            elif r < 0.85:
+                g.attach(cid, rng.choice(units), rng.choice(["psloss", "loss"]))
+            else:
+                op = cg.rand_prim_op(rng, cid, g.vis[cid])
+                g.prog.append(op)
+                if op[0] == "swaps" and rng.random() < 0.6:   # something for compress_mode_swaps to merge
+                    g.prog.append(["swaps", cid, cg.rand_perm_pairs(rng, rng.sample(range(g.vis[cid]), min(2, g.vis[cid])))])
+                g.note("op:literal-component")
+
+    def rewrites(cid: str, lo: int, hi: int) -> str:
+        for _ in range(rng.randint(lo, hi)):
+            cid = g.rewrite(cid)
+        return cid
+
+    top = g.new_circ(rng.randint(3, 5 if big else 4))
+    populate(top, rng.randint(2, 4))
+    depth = rng.choice([0, 1, 1, 2, 2, 3 if big else 2])
+    for _ in range(depth):
+        if rng.random() < 0.35:
+            top = rewrites(top, 1, 1)            # rewritten, then wired into a larger circuit
+        if rng.random() < 0.15 and g.vis[top] - g.her[top] >= 3:
+            i = rng.randrange(g.vis[top])
+            g.prog.append(["herald", top, rng.choice([0, 1]), i, i])
+            g.her[top] += 1
+            g.note("op:herald")
+        host = g.new_circ(g.vis[top] - g.her[top] + rng.randint(0, 1))
+        if rng.random() < 0.5:
+            populate(host, 1)
+        g.add_into(host, top)
+        if rng.random() < 0.5:
+            populate(host, 1)
+        top = host
+    g.note(f"rewrite:depth={depth}")
+    top = rewrites(top, 1, 2)
+    for rnd in range(rng.randint(1, 2)):
+        pids = sorted(g.attached)
+        rng.shuffle(pids)
+        for pid in pids:
+            g.emit_set(pid, g.fresh_value(pid))
+        if rnd == 0 and rng.random() < 0.6:
+            r = rng.random()
+            if r < 0.4:
+                g.derive("freeze", top)
+            elif r < 0.8:
+                top = rewrites(top, 1, 1)
+            else:
+                g.boundary_move(rng.choice(pids))
+    return g.prog, g.counts
+
+
 def gen_history(rng, big: bool = False, rewrites: bool = True) -> tuple[list, dict]:
     g = Gen(rng, big, rewrites)
     for _ in range(rng.randint(1, 3)):
@@ -799,3 +1181,111 @@ def gen_history(rng, big: bool = False, rewrites: bool = True) -> tuple[list, di
         else:
             g.structure()
     return g.prog, g.counts
+
+
+# --------------------------------------------------------------------------- directed corpus (always runs first)
+
+
+def _n(lit: Lit, py=None) -> dict:
+    return {"n": frac_str(lit.key), "py": lit.py if py is None else py}
+
+
+def corpus() -> list[tuple[str, list]]:
+    """Short hand-written histories for the shapes that random generation reaches least often.
+    (a) boundary numerics: a bound / value that is exactly 0 in each spelling (0, 0.0, -0.0: all falsy),
+        equal bounds, value on a bound, negative range, bounds installed / removed through the setters,
+        updates through a ParameterDict;
+    (b) one circuit carrying a Parameter in EVERY field role (reflectivity on adjacent, ascending and
+        descending non-adjacent modes, phase, loss of a beam splitter / phase shifter / loss element),
+        nested 0-2 levels deep, through every spec-rebuilding operation, updated only AFTERWARDS."""
+    out: list[tuple[str, list]] = []
+    u = {str(l.key): l for l in UNIT_SORTED}
+    neg_half, neg_q, neg_one, big = u["-1/2"], u["-1/4"], u["-1"], u["3/2"]
+    a, b2 = u["9/25"], u["16/25"]
+    ph = PHASE_SORTED
+    pneg, ppos, ppos2 = ph[20], ph[45], ph[50]
+    lo4, hi4 = PHASE_BOUNDS_SORTED[1], PHASE_BOUNDS_SORTED[-2]
+    for zs, z in (("int0", 0), ("0.0", 0.0), ("-0.0", -0.0)):
+        Z = _n(UNIT_ZERO, z)
+        PZ = _n(PHASE_ZERO, z)
+        # maximum exactly 0 over a negative range; direct and ParameterDict updates; removal, re-installation
+        out.append((f"max={zs}", [
+            ["pnew", 0, _n(neg_half), [_n(neg_one, -1), Z]], ["dnew", "d0", [["k", 0]]],
+            ["pset", 0, _n(big)], ["dset", "d0", "k", _n(u["2"], 2)], ["pset", 0, _n(a)], ["pset", 0, Z],
+            ["pset", 0, _n(u["121/3721"])], ["pset", 0, v_other(0)], ["pmax", 0, None], ["pset", 0, _n(a)],
+            ["pmax", 0, Z], ["dset", "d0", "k", _n(neg_q)], ["pmax", 0, Z], ["pset", 0, _n(a)]]))
+        # minimum exactly 0; the other bound absent, so "has bounds" rests on the 0 alone
+        out.append((f"min={zs}", [
+            ["pnew", 0, _n(a), [Z, None]], ["dnew", "d0", [["k", 0]]],
+            ["pset", 0, _n(neg_q)], ["dset", "d0", "k", _n(neg_one, -1)], ["pset", 0, v_other(0)],
+            ["pset", 0, v_other(1)], ["pset", 0, Z], ["pmin", 0, None], ["pset", 0, _n(neg_q)],
+            ["pmin", 0, Z], ["pset", 0, _n(b2)], ["pmin", 0, Z], ["pset", 0, _n(neg_half)]]))
+        out.append((f"max-only={zs}", [
+            ["pnew", 0, _n(neg_q), [None, Z]], ["pset", 0, v_other(0)], ["pset", 0, _n(a)],
+            ["pset", 0, _n(neg_one, -1)], ["pmin", 0, _n(neg_one, -1.0)], ["pset", 0, _n(u["-1/2"])],
+            ["pset", 0, _n(big)]]))
+        # min == max == value == 0
+        out.append((f"equal={zs}", [
+            ["pnew", 0, Z, [Z, _n(UNIT_ZERO, 0.0)]], ["pset", 0, _n(a)], ["pset", 0, _n(neg_q)],
+            ["pset", 0, _n(UNIT_ZERO, -0.0)], ["pset", 0, v_other(1)], ["pmin", 0, _n(a)], ["pmax", 0, _n(neg_q)],
+            ["pmax", 0, None], ["pset", 0, _n(a)], ["pmin", 0, None], ["pset", 0, v_other(0)]]))
+        # the VALUE is exactly 0 and a bound arrives that it violates / that equals it
+        out.append((f"value={zs}", [
+            ["pnew", 0, Z, None], ["pmin", 0, _n(a)], ["pmax", 0, _n(neg_q)], ["pmin", 0, _n(u["121/3721"])],
+            ["pmax", 0, Z], ["pset", 0, _n(a)], ["pmin", 0, _n(UNIT_ZERO, 0)], ["pset", 0, _n(neg_q)],
+            ["pnew", 1, Z, [_n(a), None]], ["pnew", 2, Z, [None, _n(neg_q)]], ["pnew", 3, Z, [Z, Z]]]))
+        # phase parameter, negative range up to exactly 0, attached to a phase shifter
+        out.append((f"phase-max={zs}", [
+            ["pnew", 0, pneg.v(), [_n(lo4), PZ]], ["dnew", "d0", [["k", 0]]], ["new", "c0", 2],
+            ["psp", "c0", 1, {"p": 0}, None], ["pset", 0, ppos.v()], ["dset", "d0", "k", ppos2.v()],
+            ["pset", 0, PZ], ["freeze", "c1", "c0"], ["pset", 0, ph[10].v()], ["pmax", 0, None],
+            ["pset", 0, ppos.v()], ["pmax", 0, PZ], ["pmin", 0, PZ], ["pset", 0, pneg.v()]]))
+        # a field whose Parameter holds exactly 0 when it is attached / frozen, and becomes non-zero later
+        out.append((f"field-at-{zs}", [
+            ["pnew", 0, Z, None], ["pnew", 1, Z, [Z, _n(UNIT_ONE, 1)]], ["pnew", 2, PZ, None],
+            ["new", "c0", 3], ["bsp", "c0", 0, 2, {"p": 0}, "Rx", {"p": 1}], ["psp", "c0", 1, {"p": 2}, {"p": 1}],
+            ["lossp", "c0", 2, {"p": 1}], ["freeze", "c1", "c0"], ["new", "c2", 3], ["add", "c2", "c0", 0, True],
+            ["freeze", "c3", "c2"], ["pset", 1, _n(a)], ["pset", 0, _n(b2)], ["pset", 2, ppos.v()],
+            ["freeze", "c4", "c2"], ["pset", 1, Z], ["pset", 0, _n(UNIT_ONE, 1)], ["pset", 2, PZ]]))
+    # (b) every field role x depth x rewrite, rewrite before update
+    vals0 = [u["9/25"], u["16/25"], u["25/169"], u["144/169"], u["64/289"]]
+    vals1 = [u["225/289"], u["49/625"], u["576/625"], u["400/841"], u["441/841"]]
+    build = [["pnew", i, vals0[i].v(), None if i % 2 else [_n(UNIT_ZERO, 0), _n(UNIT_ONE, 1)]] for i in range(5)]
+    build += [["pnew", 5, pneg.v(), None], ["pnew", 6, ppos.v(), [_n(lo4), _n(hi4)]],
+              ["dnew", "d0", [[f"k{i}", i] for i in range(7)]],
+              ["new", "c0", 4],
+              ["bsp", "c0", 3, 0, {"p": 0}, "Rx", {"p": 1}],     # non-adjacent, descending, loss Parameter
+              ["psp", "c0", 1, {"p": 5}, {"p": 2}],              # phase + loss Parameter
+              ["bsp", "c0", 0, 2, {"p": 3}, "H", None],          # non-adjacent, ascending
+              ["swaps", "c0", [[0, 1], [1, 0]]], ["swaps", "c0", [[1, 2], [2, 1]]],
+              ["bsp", "c0", 1, 2, {"p": 3}, "Rx", None],         # adjacent, the same Parameter twice
+              ["lossp", "c0", 2, {"p": 4}], ["psp", "c0", 3, {"p": 6}, None]]
+    updates = [["dset" if i % 2 else "pset", *(["d0", f"k{i}"] if i % 2 else [i]), vals1[i].v()] for i in range(5)]
+    updates += [["pset", 5, ppos2.v()], ["dset", "d0", "k6", pneg.v()]]
+    nests = {
+        "flat": ([], "c0"),
+        "group": ([["new", "c1", 5], ["add", "c1", "c0", 1, True]], "c1"),
+        "inline": ([["new", "c1", 4], ["add", "c1", "c0", 0, False]], "c1"),
+        "group-in-inline": ([["new", "c1", 5], ["add", "c1", "c0", 0, True], ["new", "c2", 6],
+                             ["bsp", "c2", 5, 0, {"p": 4}, "H", None], ["add", "c2", "c1", 1, False]], "c2"),
+        "group-of-group": ([["new", "c1", 4], ["add", "c1", "c0", 0, True], ["new", "c2", 5],
+                            ["add", "c2", "c1", 1, True]], "c2"),
+        "heralded": ([["herald", "c0", 0, 1, 1], ["new", "c1", 4], ["add", "c1", "c0", 1, False]], "c1"),
+    }
+    rewrites = {
+        "nonadj": lambda t: [["nonadj", t]],
+        "compress": lambda t: [["compress", t]],
+        "unpack": lambda t: [["unpack", t]],
+        "unpack+nonadj": lambda t: [["unpack", t], ["nonadj", t], ["compress", t]],
+        "nonadj-twice": lambda t: [["nonadj", t], ["nonadj", t]],
+        "copy": lambda t: [["copy", "x0", t], ["nonadj", "x0"]],
+        "plus": lambda t: [["plus", "x0", t, t], ["compress", "x0"]],
+        "add": lambda t: [["new", "x0", 7], ["add", "x0", t, 0, True], ["nonadj", "x0"], ["unpack", "x0"]],
+        "freeze": lambda t: [["nonadj", t], ["freeze", "x0", t]],
+    }
+    for nname, (nest, top) in nests.items():
+        for rname, rw in rewrites.items():
+            if nname == "heralded" and rname == "plus":
+                continue
+            out.append((f"fields:{nname}:{rname}", [*build, *nest, *rw(top), *updates, ["freeze", "x1", top]]))
+    return out
